@@ -622,10 +622,58 @@ def stream_pool(ctx):
         if st != r:
             ctx.violation(f"pystate: PythonNode(value={show(v)}, hash=True).state() = {str(st)[:70]} is not str(hash_value(value)) = {r[:70]}",
                           {"stream": "pool1", "a": to_json(v), "seeds": seeds})
+    check_pywrap(ctx, pool, res, seeds)
     if ctx.use_model:
         model_pool(ctx, pool, res, [sessions[0][i]["k"] for i in range(len(pool))])
     ctx.extra["pool_size"] = len(pool)
     ctx.extra["pool_sessions"] = seeds
+
+
+def check_pywrap(ctx, pool, res, seeds):
+    """A hashed PythonNode that is the product of one task and a dependency of another: the consumer's dependency is the wrapper
+    `collect_dependency` builds while the node has no value yet. Its state must track the produced value like the node's own."""
+    flags = [True] * len(pool) + [False] * min(12, len(pool))
+    vals = pool + pool[:min(12, len(pool))]
+    obs = run_worker({"mode": "pywrap", "values": [to_json(v) for v in vals], "flags": flags}, seeds[-1])
+    by_state: dict = {}
+    for i, (v, flag, ob) in enumerate(zip(vals, flags, obs)):
+        ctx.evaluations += 1
+        replay = {"stream": "pywrap", "a": to_json(v), "hash": flag}
+        if "err" in ob:
+            ctx.violation(f"pywrap-error: declaring / saving / state() of a PythonNode(hash={flag}) with value {show(v)} raised {ob['err']}", replay)
+            continue
+        if ob["w"] != ob["n"]:
+            ctx.violation(f"pywrap-differs: PythonNode(hash={flag}) produced with {show(v)}: the consumer's dependency has state {str(ob['w'])[:40]!r}, the node itself {str(ob['n'])[:40]!r}", replay)
+        if flag:
+            ctx.case(("pywrap", ser(v)), True)
+            by_state.setdefault(ob["w"], []).append(i)
+    done = 0
+    for idxs in by_state.values():          # different produced values (same shape, told apart) must change the consumer's state
+        for x in range(len(idxs)):
+            for y in range(x + 1, len(idxs)):
+                a, b = vals[idxs[x]], vals[idxs[y]]
+                if same_shape(a, b) and told_apart(a, b) and done < 50:
+                    done += 1
+                    fid = "F3" if (f3_class(a, b) and f3_class(b, a)) else None
+                    ctx.violation(f"pywrap-collision: a hashed PythonNode produced with {show(a)} / with {show(b)} gives its consumer the same dependency state",
+                                  {"stream": "pywrap", "a": to_json(a), "b": to_json(b), "hash": True}, finding=fid)
+    ctx.dist["pywrap_values"] += len(pool)
+    if ctx.use_model:
+        lines = [f"hash.pywrap hash={'on' if f else 'off'} v={ser(v)}" for v, f in zip(vals, flags)]
+        answers = ctx.driver().batch(lines)
+        ctx.traces_validated += len(lines)
+        for v, f, ob, ans in zip(vals, flags, obs, answers):
+            if "err" in ob or not ans.startswith("ok:"):
+                continue
+            mw, mn = ans[3:].split(" ")
+            try:
+                want = (realise(v, mw), realise(v, mn)) if f else (mw, mn)
+            except (Unrealisable, UnicodeDecodeError):
+                continue
+            if want != (ob["w"], ob["n"]):
+                ctx.disagreement(f"PythonNode(hash={f}) produced with {show(v)}: dependency / node states {str(ob['w'])[:20]} / {str(ob['n'])[:20]}, the model gives {want[0][:20]} / {want[1][:20]}",
+                                 {"stream": "pywrap", "a": to_json(v), "hash": f})
+                break
 
 
 def stream_nan(ctx):
@@ -1291,6 +1339,30 @@ def link_scenarios(rng):
     ]
 
 
+TASK_PYNODE = '''from pathlib import Path
+from typing import Annotated, Any
+from pytask import Product, PythonNode
+
+shared = PythonNode(name="shared", hash=True)
+
+
+def task_make(src: Path = Path("value.txt")) -> Annotated[Any, shared]:
+    return eval(src.read_text(), {"PosixPath": Path, "PurePosixPath": Path, "inf": float("inf")})
+
+
+def task_use(v: Annotated[Any, shared], out: Annotated[Path, Product] = Path("out.txt")):
+    out.write_text(repr(v))
+'''
+
+
+def pynode_scenarios(rng):
+    """kind "pynode": the hashed node is the PRODUCT of task_make and a DEPENDENCY of task_use; the produced value changes."""
+    return [
+        {"kind": "pynode", "values": [1, 2, 3]},
+        {"kind": "pynode", "values": [("a", 1), ("a", 2), ("b", 2)]},
+    ]
+
+
 def value_scenarios(rng):
     sc = [
         {"kind": "value", "values": [(1, 23), (1, 23), (12, 3), (1, 24)]},                 # F3 in the third build
@@ -1329,8 +1401,8 @@ def run_scenario(sc, hashseed):
     root = common.scratch_dir("c12e2e")
     builds = []
     try:
-        if sc["kind"] == "value":
-            (root / "task_m.py").write_text(TASK_VALUE)
+        if sc["kind"] in ("value", "pynode"):
+            (root / "task_m.py").write_text(TASK_VALUE if sc["kind"] == "value" else TASK_PYNODE)
             for v in sc["values"]:
                 (root / "value.txt").write_text(repr(v).replace("PurePosixPath", "PosixPath"))
                 r = run_worker({"mode": "build", "root": str(root)}, hashseed)
@@ -1375,11 +1447,11 @@ _UNSET = object()
 
 
 def check_scenario(ctx, sc, builds, sid):
-    name = "task_use" if sc["kind"] == "value" else "task_copy"
+    name = "task_use" if sc["kind"] in ("value", "pynode") else "task_copy"
     prev = _UNSET         # the input as of the last execution (what the recorded state describes)
     seen_mt: dict = {}    # mtime -> bytes the file had when a build first saw it under that mtime
     for i, b in enumerate(builds):
-        if sc["kind"] == "value":
+        if sc["kind"] in ("value", "pynode"):
             cur = sc["values"][i]
         elif sc["kind"] == "link":
             cur = bytes(b["dep_bytes"])            # the bytes the declared path denotes (through the link) at build time
@@ -1392,11 +1464,13 @@ def check_scenario(ctx, sc, builds, sid):
             ctx.violation(f"e2e-error: build {i + 1} of a trivial project ended with exit {b['exit']} / outcome {outc}", replay)
             return
         executed = outc == "SUCCESS"
-        if sc["kind"] == "value":
+        if sc["kind"] in ("value", "pynode"):
             demand = prev is _UNSET or (same_shape(prev, cur) and told_apart(prev, cur))
-            must_skip = prev is not _UNSET and py_canon(prev) == py_canon(cur)
+            # pynode: an unchanged value.txt skips the producer and leaves the in-memory node without a value: nothing is demanded then
+            must_skip = sc["kind"] == "value" and prev is not _UNSET and py_canon(prev) == py_canon(cur)
             fid = "F3" if (prev is not _UNSET and f3_class(prev, cur) and f3_class(cur, prev)) else None
-            what = f"the hashed value changed ({show(prev)} -> {show(cur)})"
+            what = (f"the hashed value changed ({show(prev)} -> {show(cur)})" if sc["kind"] == "value" else
+                    f"the value task_make produces into the hashed PythonNode changed ({show(prev)} -> {show(cur)})")
         else:
             mt = b["dep_mtime_ns"] if sc["kind"] == "link" else sc["steps"][i]["mtime_ns"]   # what stat() of the declared path sees
             demand = prev is _UNSET or prev != cur
@@ -1415,19 +1489,19 @@ def check_scenario(ctx, sc, builds, sid):
 
 
 def _sc_json(sc):
-    if sc["kind"] == "value":
-        return {"kind": "value", "values": [to_json(v) for v in sc["values"]]}
+    if sc["kind"] in ("value", "pynode"):
+        return {"kind": sc["kind"], "values": [to_json(v) for v in sc["values"]]}
     return sc
 
 
 def _sc_from_json(j):
-    if j["kind"] == "value":
-        return {"kind": "value", "values": [from_json(v) for v in j["values"]]}
+    if j["kind"] in ("value", "pynode"):
+        return {"kind": j["kind"], "values": [from_json(v) for v in j["values"]]}
     return j
 
 
 def stream_e2e(ctx):
-    scs = value_scenarios(ctx.rng) + file_scenarios(ctx.rng) + link_scenarios(ctx.rng)
+    scs = value_scenarios(ctx.rng) + file_scenarios(ctx.rng) + link_scenarios(ctx.rng) + pynode_scenarios(ctx.rng)
     if ctx.thorough or ctx.budget > 1:
         scs += value_scenarios(ctx.rng)[5:] + file_scenarios(ctx.rng)[2:3] + link_scenarios(ctx.rng)[2:]
     seeds = [ctx.rng.randrange(1, 2 ** 31) for _ in scs]
@@ -1469,6 +1543,10 @@ def replay(ctx, obj):
         res = check_pool_results(ctx, vals, sessions, seeds, count_cases=False)
         if ctx.use_model:
             model_pool(ctx, vals, res, [sessions[0][i]["k"] for i in range(len(vals))])
+    elif st == "pywrap":
+        vals = [from_json(inp["a"])] + ([from_json(inp["b"])] if "b" in inp else [])
+        r = run_worker({"mode": "pool", "values": [to_json(v) for v in vals]}, seed + 1)
+        check_pywrap(ctx, vals, [x["r"] for x in r], [seed + 1])
     elif st == "nan":
         stream_nan(ctx)
     elif st == "sig":
